@@ -16,6 +16,46 @@ class Divergence(Exception):
     pass
 
 
+_TLS = threading.local()
+_CURRENT = [None]
+
+
+class CoopRLock:
+    """Scheduler-aware re-entrant lock.  A real lock inside the library would park a thread that the scheduler still
+    counts as running (the run would hang); this one turns "wait for the lock" into a scheduling point at which the
+    waiting thread is not enabled.  Outside a scheduled execution it behaves as an uncontended re-entrant lock."""
+
+    def __init__(self):
+        self.owner = None
+        self.count = 0
+
+    def acquire(self, blocking=True, timeout=-1):
+        sched, tid = _CURRENT[0], getattr(_TLS, "tid", None)
+        if sched is None or tid is None:
+            self.count += 1
+            return True
+        while self.owner is not None and self.owner != tid:
+            sched.block(tid, self)
+        self.owner = tid
+        self.count += 1
+        return True
+
+    def release(self):
+        self.count -= 1
+        if self.count <= 0:
+            self.count = 0
+            self.owner = None
+
+    __enter__ = acquire
+
+    def __exit__(self, *a):
+        self.release()
+
+
+class DeadlockError(BaseException):
+    pass
+
+
 class Point:
     __slots__ = ("enabled", "chosen", "running_enabled")
 
@@ -49,13 +89,17 @@ class Scheduler:
         self.instrumented = instrumented        # set of code objects
         self.sems = [threading.Semaphore(0) for _ in range(n)]
         self.done = [False] * n
+        self.blocked = {}                       # tid -> CoopRLock it waits for
         self.ex = Execution()
         self.all_done = threading.Event()
         self.lock = threading.Lock()            # protects nothing the baton does not already serialise; belt and braces
 
     # ---- decisions
     def choose(self, running):
-        enabled = [t for t in range(self.n) if not self.done[t]]
+        enabled = [t for t in range(self.n) if not self.done[t] and
+                   (t not in self.blocked or self.blocked[t].owner is None)]
+        if not enabled:
+            raise DeadlockError()
         if running is not None and running in enabled:
             enabled.remove(running)
             enabled.insert(0, running)
@@ -84,17 +128,39 @@ class Scheduler:
             self.sems[nxt].release()
             self.sems[tid].acquire()
 
+    def block(self, tid, lock):
+        """tid waits for `lock`: a scheduling point at which tid is not enabled"""
+        self.blocked[tid] = lock
+        try:
+            nxt = self.choose(None)
+        except DeadlockError:
+            self.blocked.pop(tid, None)
+            self.ex.hung = True
+            raise
+        if nxt == tid:
+            self.blocked.pop(tid, None)
+            return
+        self.sems[nxt].release()
+        self.sems[tid].acquire()
+        self.blocked.pop(tid, None)
+
     def finish(self, tid):
         self.done[tid] = True
         if all(self.done):
             self.all_done.set()
             return
-        nxt = self.choose(None)
+        try:
+            nxt = self.choose(None)
+        except DeadlockError:
+            self.ex.hung = True
+            self.all_done.set()
+            return
         self.sems[nxt].release()
 
     # ---- threads
     def _thread(self, tid, body):
         self.sems[tid].acquire()
+        _TLS.tid = tid
         sched = self
 
         def local_tracer(frame, event, arg):
@@ -117,10 +183,12 @@ class Scheduler:
                 self.ex.outcomes[tid] = ("exc", e)
         finally:
             sys.settrace(None)
+            _TLS.tid = None
             self.finish(tid)
 
     def run(self, bodies, timeout=30.0):
         threads = [threading.Thread(target=self._thread, args=(i, b), daemon=True) for i, b in enumerate(bodies)]
+        _CURRENT[0] = self
         for t in threads:
             t.start()
         first = self.choose(None)
@@ -132,6 +200,7 @@ class Scheduler:
                 s.release()
         for t in threads:
             t.join(timeout=5.0)
+        _CURRENT[0] = None
         return self.ex
 
 
